@@ -297,6 +297,11 @@ func (bs *BinarySpray) NotifyNewBundle(bp BundleDescriptor) {
 			remainingCopies: bs.l,
 		}
 
+		// A bundle without a BinarySprayBlock might also be received from a peer. Don't send it back.
+		if pnBlock, err := bp.MustBundle().ExtensionBlock(bpv7.ExtBlockTypePreviousNodeBlock); err == nil {
+			metadata.sent = append(metadata.sent, pnBlock.Value.(*bpv7.PreviousNodeBlock).Endpoint())
+		}
+
 		bs.dataMutex.Lock()
 		bs.bundleData[bp.Id] = metadata
 		bs.dataMutex.Unlock()
